@@ -71,7 +71,7 @@ def run(ctx):
     if covered != want:
         raise vlib.Broken("generated tamperings differ from Committed: missing %s" % sorted(want - covered)[:5])
 
-    res = ctx.run_engine(binary, "TestBlockVerifyReplay", {"seed": 0, "start": 0, "behaviours": behaviours},
+    res = ctx.run_engine(binary, "TestBlockVerifyReplay", {"seed": 0, "start": 0, "behaviours": behaviours, "concurrent": True},
                          timeout=3000)
     ctx.absorb(res, "blockverify", "TestBlockVerifyReplay")
     stats = res.get("stats", {})
